@@ -395,10 +395,16 @@ def rx_enum_conversions():
     for nm in reach:
         for n in ast.walk(fns[nm]):
             target = None
-            if isinstance(n, ast.Call) and isinstance(n.func, ast.Name) and n.func.id in enums and (n.args or n.keywords):
-                target = n.func.id
-            elif isinstance(n, ast.Subscript) and isinstance(n.value, ast.Name) and n.value.id in enums:
-                target = n.value.id
+            def enum_name(x):
+                if isinstance(x, ast.Name) and x.id in enums:
+                    return x.id
+                if isinstance(x, ast.Attribute) and x.attr in enums:      # `module.ClusterBreakupReason`
+                    return x.attr
+                return None
+            if isinstance(n, ast.Call) and (n.args or n.keywords) and enum_name(n.func):
+                target = enum_name(n.func)
+            elif isinstance(n, ast.Subscript) and enum_name(n.value):
+                target = enum_name(n.value)
             if target is None:
                 continue
             if target in asn.types and asn.deref({"type": target})["type"] == "ENUMERATED":
